@@ -101,9 +101,20 @@ def lemmas(repo):
     return out
 
 
+C04_LABELS = ('success-returns-exactly-the-addressed-elements', 'status-0x00-iff-the-last-requested-element-was-sent',
+              'in-range-read-succeeds', 'success-stores-exactly-the-values-at-the-addressed-elements',
+              'in-range-write-of-the-tag-type-succeeds', 'a-read-never-changes-the-tag')
+
+
 def contracts(repo):
     spec = LC.reply_elements_spec(refuses=False, accepts=False)
     items = [spec, Custom('lemma', lemmas, note='the property as lemmas over the contract of reply_elements')]
+    items += [LC.reply_elements_spec(refuses=False, accepts=True, ctx=c) for c in ('read_frag', 'write_frag')]
+    # the fragment of Logix.request that applies the computed range: status 0x06 until the fragment
+    # with end == endactual gives 0x00, data == attribute[beg:end]; writes store exactly [beg, beg+n)
+    for sp in LC.request_specs(('read_frag', 'write_frag')):
+        sp.ensures = [(l, t) for l, t in sp.ensures if l in C04_LABELS]
+        items.append(sp)
     return items
 
 
